@@ -46,26 +46,40 @@ Proof.
   - rewrite slot_insert_other in Hs by exact E. apply (H k o' r'). exact Hs.
 Qed.
 
+(* when the fallback applies: Pending with the reconciled id, or (code after fix 8844901) a retry
+   result meeting an object that still carries our Error status *)
+Lemma fallback_ok_spec : forall efb cur r, fallback_ok efb cur r = true <->
+  (o_kind cur = Pending /\ o_sid cur = r_id r) \/ (efb = true /\ o_kind cur = Error /\ r_rev r <> r_orig r).
+Proof.
+  intros efb cur r. unfold fallback_ok. destruct (o_kind cur) eqn:Ek.
+  - rewrite N.eqb_eq. split; [intro H; left; split; [reflexivity|exact H]|].
+    intros [[_ H]|[_ [H _]]]; [exact H|discriminate].
+  - split; [discriminate|]. intros [[H _]|[_ [H _]]]; discriminate.
+  - split; [discriminate|]. intros [[H _]|[_ [H _]]]; discriminate.
+  - destruct efb; cbn [andb].
+    + destruct (r_rev r =? r_orig r) eqn:E; cbn [negb].
+      * apply N.eqb_eq in E. split; [discriminate|]. intros [[H _]|[_ [_ H]]]; [discriminate|contradiction].
+      * apply N.eqb_neq in E. split; [|reflexivity]. intros _. right. repeat split; assumption.
+    + split; [discriminate|]. intros [[H _]|[H _]]; discriminate.
+Qed.
+
 (* Exact effect of one status commit. Three cases only:
-   (1) nothing is written (object absent/deleted, or changed and not "Pending with the same id");
+   (1) nothing is written (object absent/deleted, or changed and the fallback does not apply);
    (2) the object still has the reconciled revision: it is replaced by the reconciled object with the
        new status (CompareAndSwap);
-   (3) revision differs but the status is Pending with the reconciled id: the CURRENT object gets the
-       new status.
+   (3) revision differs but the fallback applies (fallback_ok_spec): the CURRENT object gets the new status.
    No other key is touched; a missing key is never inserted; a retry is queued iff the operation had
    failed and the status write happened. *)
-Definition commit_effect (fixed : bool) (now : N) (t : table) (q : retries) (r : opres) (t' : table) (q' : retries) : Prop :=
+Definition commit_effect (fixed efb : bool) (now : N) (t : table) (q : retries) (r : opres) (t' : table) (q' : retries) : Prop :=
   let pk := o_pk (r_obj r) in
   let st := if r_ok r then Done else Error in
   (forall k, k <> pk -> slot_of t' k = slot_of t k) /\
   ( (slot_of t' pk = slot_of t pk /\ t_rev t' = t_rev t /\
-       forall cur rv, t_live t pk = Some (cur, rv) ->
-         rv <> r_rev r /\ ~ (o_kind cur = Pending /\ o_sid cur = r_id r))
+       forall cur rv, t_live t pk = Some (cur, rv) -> rv <> r_rev r /\ fallback_ok efb cur r = false)
     \/ (exists cur, t_live t pk = Some (cur, r_rev r) /\
          slot_of t' pk = Some (Live (with_status (r_obj r) st (t_nextid t)) (t_rev t + 1)) /\
          t_rev t' = t_rev t + 1)
-    \/ (exists cur rv, t_live t pk = Some (cur, rv) /\ rv <> r_rev r /\
-         o_kind cur = Pending /\ o_sid cur = r_id r /\
+    \/ (exists cur rv, t_live t pk = Some (cur, rv) /\ rv <> r_rev r /\ fallback_ok efb cur r = true /\
          slot_of t' pk = Some (Live (with_status cur st (t_nextid t)) (t_rev t + 1)) /\
          t_rev t' = t_rev t + 1) ) /\
   q' = (if negb (r_ok r) && wrote t t'
@@ -76,10 +90,10 @@ Proof. intros t t1 o H. cbn. rewrite H. apply N.eqb_refl. Qed.
 Lemma wrote_same : forall t t1, t_rev t1 = t_rev t -> (t_rev t1 =? t_rev t + 1) = false.
 Proof. intros t t1 H. rewrite H. apply N.eqb_neq. lia. Qed.
 
-Theorem commit_one_spec : forall fixed now t q r t' q', keyed t ->
-  commit_one fixed now (t, q) r = (t', q') -> commit_effect fixed now t q r t' q'.
+Theorem commit_one_spec : forall fixed efb now t q r t' q', keyed t ->
+  commit_one fixed efb now (t, q) r = (t', q') -> commit_effect fixed efb now t q r t' q'.
 Proof.
-  intros fixed now t q r t' q' Hk H. unfold commit_effect.
+  intros fixed efb now t q r t' q' Hk H. unfold commit_effect.
   unfold commit_one, t_fresh_id, t_cas in H.
   set (t1 := mkTable (t_slots t) (t_rev t) (t_nextid t + 1) (t_pendinit t)) in *.
   assert (L1 : forall st, t_live t1 (o_pk (with_status (r_obj r) st (t_nextid t))) = t_live t (o_pk (r_obj r))) by reflexivity.
@@ -97,25 +111,8 @@ Proof.
       * exact (slot_insert_same t1 (with_status (r_obj r) Error (t_nextid t))).
     + apply N.eqb_neq in Erv.
       assert (Hpk : o_pk cur = o_pk (r_obj r)) by (apply (Hk _ cur rv); apply t_live_slot; exact EL).
-      assert (NoWrite : forall (c : bool), (if c && false then (t1, r_add q (r_obj r) (t_rev t1) (if fixed then r_orig r else r_rev r) false now) else (t1, q)) = (t', q') ->
-        ~ (o_kind cur = Pending /\ o_sid cur = r_id r) ->
-        (forall k : N, k <> o_pk (r_obj r) -> slot_of t' k = slot_of t k) /\
-        (slot_of t' (o_pk (r_obj r)) = slot_of t (o_pk (r_obj r)) /\ t_rev t' = t_rev t /\
-           (forall cur0 rv0, Some (cur, rv) = Some (cur0, rv0) -> rv0 <> r_rev r /\ ~ (o_kind cur0 = Pending /\ o_sid cur0 = r_id r)) \/
-         (exists cur0, Some (cur, rv) = Some (cur0, r_rev r) /\
-            slot_of t' (o_pk (r_obj r)) = Some (Live (with_status (r_obj r) (if r_ok r then Done else Error) (t_nextid t)) (t_rev t + 1)) /\ t_rev t' = t_rev t + 1) \/
-         (exists cur0 rv0, Some (cur, rv) = Some (cur0, rv0) /\ rv0 <> r_rev r /\ o_kind cur0 = Pending /\ o_sid cur0 = r_id r /\
-            slot_of t' (o_pk (r_obj r)) = Some (Live (with_status cur0 (if r_ok r then Done else Error) (t_nextid t)) (t_rev t + 1)) /\ t_rev t' = t_rev t + 1)) /\
-        q' = (if negb (r_ok r) && wrote t t' then r_add q (r_obj r) (t_rev t') (if fixed then r_orig r else r_rev r) false now else q)).
-      { intros c Hc Hnp. rewrite andb_false_r in Hc. injection Hc as H1 H2. subst t' q'.
-        unfold wrote. rewrite (wrote_same t t1 eq_refl), andb_false_r.
-        split; [intros; apply S1|]. split; [|reflexivity]. left.
-        split; [apply S1|]. split; [reflexivity|].
-        intros c0 v0 Hc0. injection Hc0 as Hc1 Hc2. subst c0 v0. split; [exact Erv|exact Hnp]. }
-      destruct (o_kind cur) eqn:Ek; try (apply (NoWrite (negb (r_ok r))); [exact H|intros [A _]; discriminate]).
-      destruct (o_sid cur =? r_id r) eqn:Es.
-      * apply N.eqb_eq in Es. clear NoWrite.
-        assert (P : forall st, slot_of (t_insert t1 (with_status cur st (t_nextid t))) (o_pk (r_obj r)) =
+      destruct (fallback_ok efb cur r) eqn:Ef.
+      * assert (P : forall st, slot_of (t_insert t1 (with_status cur st (t_nextid t))) (o_pk (r_obj r)) =
                     Some (Live (with_status cur st (t_nextid t)) (t_rev t + 1))).
         { intro st0. pose proof (slot_insert_same t1 (with_status cur st0 (t_nextid t))) as P.
           cbn [with_status o_pk] in P. rewrite Hpk in P. exact P. }
@@ -123,7 +120,11 @@ Proof.
         (split; [intros k Hn; rewrite <- S1; apply (slot_insert_other t1); cbn [with_status o_pk]; rewrite Hpk; exact Hn|]);
         unfold wrote; erewrite wrote_insert by reflexivity; cbn [negb andb]; (split; [|reflexivity]);
         right; right; exists cur, rv; repeat split; try assumption; apply P.
-      * apply N.eqb_neq in Es. apply (NoWrite (negb (r_ok r))); [exact H|intros [_ B]; congruence].
+      * rewrite andb_false_r in H. injection H as H1 H2. subst t' q'.
+        unfold wrote. rewrite (wrote_same t t1 eq_refl), andb_false_r.
+        split; [intros; apply S1|]. split; [|reflexivity]. left.
+        split; [apply S1|]. split; [reflexivity|].
+        intros c0 v0 Hc0. injection Hc0 as Hc1 Hc2. subst c0 v0. split; [exact Erv|exact Ef].
   - (* not found (absent or in the graveyard): nothing written, nothing queued *)
     rewrite andb_false_r in H. injection H as H1 H2. subst t' q'. unfold wrote. rewrite (wrote_same t t1 eq_refl), andb_false_r.
     split; [intros; apply S1|]. split; [|reflexivity]. left.
@@ -141,12 +142,12 @@ Definition not_live (t : table) (k : N) : Prop :=
 Definition rev_identifies (t : table) (r : opres) : Prop :=
   forall cur, t_live t (o_pk (r_obj r)) = Some (cur, r_rev r) -> o_ver cur = o_ver (r_obj r).
 
-Lemma commit_one_keyed : forall fixed now t q r t' q', keyed t ->
-  commit_one fixed now (t, q) r = (t', q') -> keyed t'.
+Lemma commit_one_keyed : forall fixed efb now t q r t' q', keyed t ->
+  commit_one fixed efb now (t, q) r = (t', q') -> keyed t'.
 Proof.
-  intros fixed now t q r t' q' Hk H. destruct (commit_one_spec _ _ _ _ _ _ _ Hk H) as [Ho [Hc _]].
+  intros fixed efb now t q r t' q' Hk H. destruct (commit_one_spec _ _ _ _ _ _ _ _ Hk H) as [Ho [Hc _]].
   intros k o rv Hs. destruct (N.eq_dec k (o_pk (r_obj r))) as [E|E].
-  - subst k. destruct Hc as [[A _]|[[cur [A [B _]]]|[cur [rv0 [A [_ [_ [_ [B _]]]]]]]]].
+  - subst k. destruct Hc as [[A _]|[[cur [A [B _]]]|[cur [rv0 [A [_ [_ [B _]]]]]]]].
     + rewrite A in Hs. apply (Hk _ _ _ Hs).
     + rewrite B in Hs. injection Hs as H1 H2. subst o. reflexivity.
     + rewrite B in Hs. injection Hs as H1 H2. subst o. cbn. apply (Hk _ cur rv0). apply t_live_slot. exact A.
@@ -154,11 +155,11 @@ Proof.
 Qed.
 
 (* a deleted or absent object is never (re-)created, and then no retry is queued either *)
-Theorem commit_one_never_inserts : forall fixed now t q r t' q', keyed t ->
-  commit_one fixed now (t, q) r = (t', q') -> not_live t (o_pk (r_obj r)) ->
+Theorem commit_one_never_inserts : forall fixed efb now t q r t' q', keyed t ->
+  commit_one fixed efb now (t, q) r = (t', q') -> not_live t (o_pk (r_obj r)) ->
   (forall k, slot_of t' k = slot_of t k) /\ t_rev t' = t_rev t /\ q' = q.
 Proof.
-  intros fixed now t q r t' q' Hk H Hn. destruct (commit_one_spec _ _ _ _ _ _ _ Hk H) as [Ho [Hc Hq]].
+  intros fixed efb now t q r t' q' Hk H Hn. destruct (commit_one_spec _ _ _ _ _ _ _ _ Hk H) as [Ho [Hc Hq]].
   unfold not_live in Hn.
   assert (NL : forall cur rv, t_live t (o_pk (r_obj r)) = Some (cur, rv) -> False).
   { intros cur rv Hl. apply t_live_slot in Hl. rewrite Hl in Hn. exact Hn. }
@@ -171,57 +172,58 @@ Qed.
 
 (* a result is applied only if the revision is the reconciled one, or the status is Pending with the
    reconciled id *)
-Theorem commit_one_applies_only_if : forall fixed now t q r t' q', keyed t ->
-  commit_one fixed now (t, q) r = (t', q') -> slot_of t' (o_pk (r_obj r)) <> slot_of t (o_pk (r_obj r)) ->
+Theorem commit_one_applies_only_if : forall fixed efb now t q r t' q', keyed t ->
+  commit_one fixed efb now (t, q) r = (t', q') -> slot_of t' (o_pk (r_obj r)) <> slot_of t (o_pk (r_obj r)) ->
   exists cur rv, t_live t (o_pk (r_obj r)) = Some (cur, rv) /\
-    (rv = r_rev r \/ (o_kind cur = Pending /\ o_sid cur = r_id r)).
+    (rv = r_rev r \/ (o_kind cur = Pending /\ o_sid cur = r_id r) \/
+     (efb = true /\ o_kind cur = Error /\ r_rev r <> r_orig r)).
 Proof.
-  intros fixed now t q r t' q' Hk H Hd. destruct (commit_one_spec _ _ _ _ _ _ _ Hk H) as [_ [Hc _]].
-  destruct Hc as [[A _]|[[cur [A _]]|[cur [rv0 [A [_ [B [C _]]]]]]]].
+  intros fixed efb now t q r t' q' Hk H Hd. destruct (commit_one_spec _ _ _ _ _ _ _ _ Hk H) as [_ [Hc _]].
+  destruct Hc as [[A _]|[[cur [A _]]|[cur [rv0 [A [_ [B _]]]]]]].
   - contradiction.
   - exists cur, (r_rev r). split; [exact A|left; reflexivity].
-  - exists cur, rv0. split; [exact A|right; split; assumption].
+  - exists cur, rv0. split; [exact A|right; apply fallback_ok_spec; exact B].
 Qed.
 
 (* a retry is queued only if the operation failed AND its Error status was written *)
-Theorem commit_one_retry_only_if_written : forall fixed now t q r t' q', keyed t ->
-  commit_one fixed now (t, q) r = (t', q') -> q' <> q -> r_ok r = false /\ t_rev t' = t_rev t + 1.
+Theorem commit_one_retry_only_if_written : forall fixed efb now t q r t' q', keyed t ->
+  commit_one fixed efb now (t, q) r = (t', q') -> q' <> q -> r_ok r = false /\ t_rev t' = t_rev t + 1.
 Proof.
-  intros fixed now t q r t' q' Hk H Hd. destruct (commit_one_spec _ _ _ _ _ _ _ Hk H) as [_ [_ Hq]].
+  intros fixed efb now t q r t' q' Hk H Hd. destruct (commit_one_spec _ _ _ _ _ _ _ _ Hk H) as [_ [_ Hq]].
   destruct (r_ok r); cbn [negb andb] in Hq; [congruence|].
   split; [reflexivity|]. unfold wrote in Hq. destruct (t_rev t' =? t_rev t + 1) eqn:E; [apply N.eqb_eq; exact E|congruence].
 Qed.
 
 (* only the status component changes: every key keeps its payload version, dead/absent stays so *)
-Theorem commit_one_status_only : forall fixed now t q r t' q', keyed t -> rev_identifies t r ->
-  commit_one fixed now (t, q) r = (t', q') ->
+Theorem commit_one_status_only : forall fixed efb now t q r t' q', keyed t -> rev_identifies t r ->
+  commit_one fixed efb now (t, q) r = (t', q') ->
   (forall k, payload t' k = payload t k) /\ (forall k, not_live t k -> slot_of t' k = slot_of t k).
 Proof.
-  intros fixed now t q r t' q' Hk Hri H. destruct (commit_one_spec _ _ _ _ _ _ _ Hk H) as [Ho [Hc _]].
+  intros fixed efb now t q r t' q' Hk Hri H. destruct (commit_one_spec _ _ _ _ _ _ _ _ Hk H) as [Ho [Hc _]].
   split.
   - intro k. unfold payload. destruct (N.eq_dec k (o_pk (r_obj r))) as [E|E]; [subst k|rewrite Ho by exact E; reflexivity].
-    destruct Hc as [[A _]|[[cur [A [B _]]]|[cur [rv0 [A [_ [_ [_ [B _]]]]]]]]].
+    destruct Hc as [[A _]|[[cur [A [B _]]]|[cur [rv0 [A [_ [_ [B _]]]]]]]].
     + rewrite A. reflexivity.
     + rewrite B. pose proof (Hri cur A) as V. apply t_live_slot in A. rewrite A. cbn. congruence.
     + rewrite B. apply t_live_slot in A. rewrite A. reflexivity.
   - intros k Hn. destruct (N.eq_dec k (o_pk (r_obj r))) as [E|E]; [subst k|apply Ho; exact E].
-    destruct (commit_one_never_inserts _ _ _ _ _ _ _ Hk H Hn) as [A _]. apply A.
+    destruct (commit_one_never_inserts _ _ _ _ _ _ _ _ Hk H Hn) as [A _]. apply A.
 Qed.
 
 (* the whole commitStatus (any number of results, any order) *)
 Definition res_consistent (t : table) (res : list opres) : Prop :=
   NoDup (map (fun r => o_pk (r_obj r)) res) /\ forall r, In r res -> rev_identifies t r.
 
-Theorem commit_status_status_only : forall fixed now res t q t' q', keyed t -> res_consistent t res ->
-  commit_status_gen fixed now t q res = (t', q') ->
+Theorem commit_status_status_only : forall fixed efb now res t q t' q', keyed t -> res_consistent t res ->
+  commit_status_gen fixed efb now t q res = (t', q') ->
   keyed t' /\ (forall k, payload t' k = payload t k) /\ (forall k, not_live t k -> slot_of t' k = slot_of t k).
 Proof.
-  intros fixed now res. unfold commit_status_gen. induction res as [|r rest IH]; intros t q t' q' Hk [Hnd Hri] H.
+  intros fixed efb now res. unfold commit_status_gen. induction res as [|r rest IH]; intros t q t' q' Hk [Hnd Hri] H.
   - cbn in H. injection H as H1 H2. subst. split; [exact Hk|]. split; intros; reflexivity.
-  - cbn [fold_left] in H. destruct (commit_one fixed now (t, q) r) as [t1 q1] eqn:E1.
-    pose proof (commit_one_keyed _ _ _ _ _ _ _ Hk E1) as Hk1.
-    destruct (commit_one_spec _ _ _ _ _ _ _ Hk E1) as [Ho _].
-    destruct (commit_one_status_only _ _ _ _ _ _ _ Hk (Hri r (or_introl eq_refl)) E1) as [P1 N1].
+  - cbn [fold_left] in H. destruct (commit_one fixed efb now (t, q) r) as [t1 q1] eqn:E1.
+    pose proof (commit_one_keyed _ _ _ _ _ _ _ _ Hk E1) as Hk1.
+    destruct (commit_one_spec _ _ _ _ _ _ _ _ Hk E1) as [Ho _].
+    destruct (commit_one_status_only _ _ _ _ _ _ _ _ Hk (Hri r (or_introl eq_refl)) E1) as [P1 N1].
     cbn [map] in Hnd. inversion Hnd as [|x xs Hx Hr]; subst.
     assert (C1 : res_consistent t1 rest).
     { split; [exact Hr|]. intros r2 Hin cur Hl. apply (Hri r2 (or_intror Hin) cur).
@@ -237,11 +239,11 @@ Qed.
 (* ------------------------------------------------------------------ origRev is carried through retries (C16) *)
 (* with the fix, the item re-queued by a status commit carries the origRev of the result; every other
    item is untouched *)
-Lemma commit_one_orig : forall now t q r t' q' pk, keyed t ->
-  commit_one true now (t, q) r = (t', q') ->
+Lemma commit_one_orig : forall efb now t q r t' q' pk, keyed t ->
+  commit_one true efb now (t, q) r = (t', q') ->
   orig_of q' pk = orig_of q pk \/ (pk = o_pk (r_obj r) /\ orig_of q' pk = Some (r_orig r)).
 Proof.
-  intros now t q r t' q' pk Hk H. destruct (commit_one_spec _ _ _ _ _ _ _ Hk H) as [_ [_ Hq]].
+  intros efb now t q r t' q' pk Hk H. destruct (commit_one_spec _ _ _ _ _ _ _ _ Hk H) as [_ [_ Hq]].
   destruct (negb (r_ok r) && wrote t t'); [|left; rewrite Hq; reflexivity].
   subst q'. unfold orig_of. destruct (N.eq_dec pk (o_pk (r_obj r))) as [E|E].
   - right. split; [exact E|]. subst pk.
@@ -274,13 +276,13 @@ Theorem origrev_stable : forall e snap q res it e1 q1 res1 now t q2 t' q',
   ri_del it = false -> keyed t ->
   process_single e snap false q res (ri_obj it) (ri_rev it) (ri_orig it) (ri_del it) = (e1, q1, res1) ->
   exists r, res1 = res ++ [r] /\ r_orig r = ri_orig it /\ o_pk (r_obj r) = ri_pk it /\
-    (commit_one true now (t, q2) r = (t', q') ->
+    (commit_one true true now (t, q2) r = (t', q') ->
      orig_of q' (ri_pk it) = orig_of q2 (ri_pk it) \/ orig_of q' (ri_pk it) = Some (ri_orig it)).
 Proof.
   intros e snap q res it e1 q1 res1 now t q2 t' q' Hd Hk H.
   pose proof (process_single_retry_orig _ _ _ _ _ _ _ _ H) as P. rewrite Hd in P. destruct P as [ok P].
   eexists. split; [exact P|]. split; [reflexivity|]. split; [reflexivity|].
-  intro Hc. destruct (commit_one_orig _ _ _ _ _ _ (ri_pk it) Hk Hc) as [A|[_ A]]; [left; exact A|right; exact A].
+  intro Hc. destruct (commit_one_orig _ _ _ _ _ _ _ (ri_pk it) Hk Hc) as [A|[_ A]]; [left; exact A|right; exact A].
 Qed.
 
 (* ------------------------------------------------------------------ progress tracker (C16) *)
@@ -293,4 +295,33 @@ Proof.
   - unfold wur. cbn [snd]. apply N.leb_le.
   - intros rev lwm. unfold progress_update. cbn [k_prev k_plwm].
     destruct (k_prev s <? rev) eqn:E; [apply N.ltb_lt in E|apply N.ltb_ge in E]; repeat split; lia.
+Qed.
+
+(* ------------------------------------------------------------------ fix 8844901 (positive statement) *)
+(* a RETRY result (rev <> origRev) meeting an object that still carries our Error status is always
+   written — whatever revision a foreign status-only write gave the object meanwhile — and a failed retry
+   is re-queued for the written revision with its origRev *)
+Theorem retry_commits_over_foreign_write : forall fixed now t q r t' q' cur rv, keyed t ->
+  t_live t (o_pk (r_obj r)) = Some (cur, rv) -> o_kind cur = Error -> r_rev r <> r_orig r ->
+  commit_one fixed true now (t, q) r = (t', q') ->
+  t_rev t' = t_rev t + 1 /\
+  (exists o', slot_of t' (o_pk (r_obj r)) = Some (Live o' (t_rev t + 1)) /\
+              o_kind o' = (if r_ok r then Done else Error) /\
+              o_ver o' = (if rv =? r_rev r then o_ver (r_obj r) else o_ver cur)) /\
+  q' = (if r_ok r then q else r_add q (r_obj r) (t_rev t + 1) (if fixed then r_orig r else r_rev r) false now).
+Proof.
+  intros fixed now t q r t' q' cur rv Hk Hl Hke Hre H.
+  destruct (commit_one_spec _ _ _ _ _ _ _ _ Hk H) as [_ [Hc Hq]].
+  assert (Hf : fallback_ok true cur r = true) by (apply fallback_ok_spec; right; repeat split; assumption).
+  destruct Hc as [[_ [_ C]]|[[c2 [A [B C]]]|[c2 [rv2 [A [A2 [_ [B C]]]]]]]].
+  - destruct (C cur rv Hl) as [_ C2]. congruence.
+  - rewrite Hl in A. injection A as A1 A2. subst c2 rv. rewrite N.eqb_refl.
+    split; [exact C|]. split.
+    + eexists. split; [exact B|]. split; reflexivity.
+    + rewrite Hq. unfold wrote. rewrite C, N.eqb_refl. destruct (r_ok r); reflexivity.
+  - rewrite Hl in A. injection A as A1 A3. subst c2 rv2.
+    apply N.eqb_neq in A2. rewrite A2.
+    split; [exact C|]. split.
+    + eexists. split; [exact B|]. split; reflexivity.
+    + rewrite Hq. unfold wrote. rewrite C, N.eqb_refl. destruct (r_ok r); reflexivity.
 Qed.
